@@ -1,4 +1,5 @@
 import BromeliaVerif.Model.Session
+import Std.Data.String.ToNat
 /-! C16 — generated Session-Ids are unique for the life of the process and well-formed. -/
 namespace BV.C16
 open BV.Session
@@ -68,4 +69,57 @@ theorem counter_monotone (s : St) (ops : List Op) (i : Nat) (h : i < (run s ops)
 example : (run ⟨3900000000, 0⟩ [.gen "a".toList, .gen "b".toList, .bulk "b".toList "a".toList, .bulk "a".toList "b".toList, .gen "a".toList]).map (·.low) = [1, 2, 3, 4, 5] := by
   decide
 
+
+/-- a list cut at its LAST `;`: if the tails carry no `;`, equal texts have equal tails -/
+theorem tail_eq_of_no_sep (a b d e : List Char) (hd : ';' ∉ d) (he : ';' ∉ e)
+    (h : a ++ ';' :: d = b ++ ';' :: e) : d = e := by
+  induction a generalizing b with
+  | nil =>
+    cases b with
+    | nil => simpa using h
+    | cons c b =>
+      simp only [List.nil_append, List.cons_append, List.cons.injEq] at h
+      exact absurd (h.2 ▸ (by simp : ';' ∈ b ++ ';' :: e)) hd
+  | cons c a ih =>
+    cases b with
+    | nil =>
+      simp only [List.nil_append, List.cons_append, List.cons.injEq] at h
+      exact absurd (h.2 ▸ (by simp : ';' ∈ a ++ ';' :: d)) he
+    | cons c' b =>
+      simp only [List.cons_append, List.cons.injEq] at h
+      exact ih b h.2
+
+theorem no_sep_repr (n : Nat) : ';' ∉ (Nat.repr n).toList := by
+  intro h
+  rw [Nat.toList_repr] at h
+  have := Nat.isDigit_of_mem_toDigits (by omega) (by omega) h
+  revert this; decide
+
+/-- the TEXT decides the counter: two rendered Session-Ids that are equal as strings have the same
+    low word, whatever the identities are (identities may themselves contain `;`) -/
+theorem render_low_inj (x y : Sid) (h : render x = render y) : x.low = y.low := by
+  have hx : ∀ z : Sid, render z = ((z.identity ++ [';'] ++ (Nat.repr z.high).toList) ++ ';' :: (Nat.repr z.low).toList) ++ ";bromelia".toList := by
+    intro z; simp [render, List.append_assoc]
+  rw [hx x, hx y] at h
+  have h1 := List.append_cancel_right h
+  have := tail_eq_of_no_sep _ _ _ _ (no_sep_repr _) (no_sep_repr _) h1
+  exact Nat.repr_injective (String.toList_inj.mp this)
+
+/-- uniqueness at the level the statement speaks of — the generated TEXTS are pairwise distinct in
+    every history, for arbitrary identities -/
+theorem session_text_unique (s : St) (ops : List Op) : ((run s ops).map render).Nodup := by
+  induction ops generalizing s with
+  | nil => simp [run]
+  | cons op ops ih =>
+    simp only [run, List.map_cons, List.nodup_cons]
+    refine ⟨?_, ih _⟩
+    intro hm
+    obtain ⟨x, hx, he⟩ := List.mem_map.mp hm
+    have h1 := run_low_gt ops (step s op).1 x hx
+    have h2 := render_low_inj _ _ he
+    simp only [step] at h1 h2
+    omega
+
+-- non-vacuity: identities that contain the separator themselves
+example : ((run ⟨1, 0⟩ [.gen "a;1".toList, .gen "a".toList]).map render).Nodup := session_text_unique _ _
 end BV.C16
